@@ -151,7 +151,7 @@ func c10Scenario(c c10Case) *vsched.Scenario {
 					vsched.Close("harness:watcher-halts", watchC)
 				case "write-unicast-pending-other", "write-unicast-pending-syscall":
 					vsched.Sleep(1100 * time.Millisecond) // a multicast RA went out at 6s
-					inject(rsFrom("::", false))            // its answer is held back until 9s
+					inject(rsFrom("::", false))           // its answer is held back until 9s
 					vsched.Sleep(100 * time.Millisecond)
 					inject(rsFrom("fe80::5", true)) // this answer's transmission fails
 				default: // write faults happen on the periodic RA due at 6s
@@ -194,8 +194,8 @@ func c10Scenario(c c10Case) *vsched.Scenario {
 		}
 		var (
 			faultIdx, closeIdx, open1Idx, retIdx, endIdx, cancelIdx = -1, -1, -1, -1, -1, -1
-			retT, open1T, cancelT                                  time.Duration
-			retDetail                                              string
+			retT, open1T, cancelT                                   time.Duration
+			retDetail                                               string
 		)
 		closes := map[string]int{}
 		leaves := map[string]int{}
